@@ -1094,7 +1094,7 @@ func genNest(R *rand.Rand) modelCase {
 	switch R.IntN(4) {
 	case 0: // token soup
 		for k := R.IntN(14); k > 0; k-- {
-			toks = append(toks, "aan[]<>[<n"[R.IntN(10)])
+			toks = append(toks, "aan[]<>[<niiiRR"[R.IntN(15)])
 		}
 	default: // a tower around the limit, closed properly or almost
 		depth := []int{1, 2, 5, 100, 250, 254, 255, 256, 257, 258, 300}[R.IntN(11)]
@@ -1135,6 +1135,10 @@ func genNest(R *rand.Rand) modelCase {
 			text.WriteString([]string{"(s)", "true", "null", "1.5", "<AB>"}[R.IntN(5)])
 		case 'n':
 			text.WriteString("/K")
+		case 'i':
+			text.WriteString([]string{"0", "612", "3", "99999999", "-1"}[R.IntN(5)])
+		case 'R':
+			text.WriteString("R")
 		case '[':
 			text.WriteString("[")
 		case ']':
@@ -1185,6 +1189,123 @@ func genNest(R *rand.Rand) modelCase {
 		}
 	}
 	return modelCase{Line: "N " + ts, Run: run, NonTrivial: len(toks) > 200, Class: "N"}
+}
+
+// The systematic part of family N: every sequence over {integer, R, other
+// scalar} up to a length as the body of an array (the object's value, a
+// dictionary value, inside the trailer, inside a cross-reference stream
+// dictionary) and as the values of a dictionary.  `n g R` look-backs over
+// arbitrary neighbours are what ReadArray's two type assertions depend on.
+type nestEnum struct {
+	ctx int
+	seq string
+}
+
+var nestEnums []nestEnum
+
+func init() {
+	var rec func(prefix string, left int, out *[]string)
+	rec = func(prefix string, left int, out *[]string) {
+		*out = append(*out, prefix)
+		if left == 0 {
+			return
+		}
+		for _, c := range "iRa" {
+			rec(prefix+string(c), left-1, out)
+		}
+	}
+	for ctx, maxLen := range []int{7, 6, 6, 6, 5} {
+		var seqs []string
+		rec("", maxLen, &seqs)
+		for _, q := range seqs {
+			nestEnums = append(nestEnums, nestEnum{ctx, q})
+		}
+	}
+}
+
+func tokenText(seq string) string {
+	var sb strings.Builder
+	vals := []string{"0", "612", "3", "99999999", "0", "792", "65536"}
+	for i, c := range seq {
+		switch c {
+		case 'i':
+			sb.WriteString(vals[i%len(vals)])
+		case 'R':
+			sb.WriteString("R")
+		case 'a':
+			sb.WriteString([]string{"(s)", "/N", "true", "1.5"}[i%4])
+		}
+		sb.WriteByte(' ')
+	}
+	return sb.String()
+}
+
+func enumNest(i int) modelCase {
+	en := nestEnums[i%len(nestEnums)]
+	txt := tokenText(en.seq)
+	// 'a' stands for a scalar that is not an integer; a name is the token n
+	var model strings.Builder
+	for j, c := range en.seq {
+		if c == 'a' && j%4 == 1 {
+			model.WriteByte('n')
+		} else {
+			model.WriteRune(c)
+		}
+	}
+	mseq := model.String()
+	cat := "<< /Type /Catalog /Pages 2 0 R >>"
+	pages := "<< /Type /Pages /Kids [] /Count 0 >>"
+	var file []byte
+	var line string
+	openOnly := false
+	switch en.ctx {
+	case 0:
+		file = simpleFile(map[int]string{1: cat, 2: pages, 5: "[ " + txt + "]"}, 1, "")
+		line = "N [" + mseq + "]"
+	case 1:
+		file = simpleFile(map[int]string{1: cat, 2: pages, 5: "<< /K [ " + txt + "] /L (x) >>"}, 1, "")
+		line = "N <n[" + mseq + "]na>"
+	case 2:
+		file = simpleFile(map[int]string{1: cat, 2: pages, 5: "<< /K " + txt + ">>"}, 1, "")
+		line = "N <n" + mseq + ">"
+	case 3:
+		file = simpleFile(map[int]string{1: cat, 2: pages}, 1, " /Verif [ "+txt+"]")
+		line = "N ![" + mseq + "]"
+		openOnly = true
+	default:
+		file = (&osFile{xrefExtra: "/Verif [ " + txt + "]"}).build()
+		line = "N ![" + mseq + "]"
+		openOnly = true
+	}
+	run := func() (string, []violation) {
+		r, err := pdf.NewReader(bytes.NewReader(file), int64(len(file)), &pdf.ReaderOptions{ErrorHandling: pdf.ErrorHandlingStop})
+		if openOnly {
+			if err == nil {
+				r.Close()
+			}
+			// also through the recovery path
+			if fi, err2 := pdf.SequentialScan(bytes.NewReader(file), int64(len(file))); err2 == nil {
+				if r2, err3 := fi.MakeReader(nil); err3 == nil {
+					r2.Close()
+				}
+			}
+			return "nopanic", nil
+		}
+		if err != nil {
+			return "open-failed", nil
+		}
+		defer r.Close()
+		_, err = r.Get(ref(5), true)
+		switch {
+		case err == nil:
+			return "ok", nil
+		case pdf.IsMalformed(err):
+			return "mal", nil
+		default:
+			return "other", nil
+		}
+	}
+	return modelCase{Line: line, Run: run, NonTrivial: len(en.seq) >= 3, Class: "N"}
 }
 
 var families = []struct {
